@@ -464,7 +464,7 @@ fn gen_json(r: &mut Rng, t: i64, s: &mut Stream) -> GenJson {
         }
         6..=8 => {
             // float seconds t + k/1024 (exact in f64 while |t| < 2^42)
-            let k = r.below(1024) as i64;
+            let k = if r.chance(1, 5) { 0 } else { r.below(1024) as i64 };
             let tt = if t.abs() < (1 << 42) { t } else { t % (1 << 40) };
             let f = tt as f64 + (k as f64) / 1024.0;
             s.tally(if k == 0 { "float:integral" } else { "float:fraction" });
@@ -747,8 +747,12 @@ fn stream_sites(a: &snel_harness::out::Args) {
         let lit_str: Option<String> = match ScalarValue::from(g.v.clone()) { ScalarValue::Utf8(x) => Some(x), _ => None };
         let row = cond_token(&expr, field, &op, lit_str.as_deref());
         s.case(&format!("sites {}", jv_token(&g.v)), &format!("store={store} raw={raw} rw={rw} row={row}"), store.starts_with("ok"));
-        // oracle: every site that accepts the literal reads it as the instant's second
-        if let Some(exp) = g.expect {
+        // oracle: every site that accepts the literal reads it as the instant's second.
+        // JSON *numbers* in WHERE are epoch seconds by the property text; a number written in
+        // ms/us/ns is not a spelling WHERE promises to accept, so it is tallied, not judged.
+        let where_int_other_unit = matches!((&g.v, g.int_meta), (Value::Number(n), Some((_, d, _))) if (n.is_i64() || n.is_u64()) && d != 1);
+        if where_int_other_unit { s.tally("where-integer-in-ms/us/ns (not judged)"); }
+        if let (Some(exp), false) = (g.expect, where_int_other_unit) {
             let mut bad: Vec<String> = vec![];
             if store != format!("ok:{exp}") { bad.push(format!("store={store}")); }
             if row != format!("num:{exp}") { bad.push(format!("row={row}")); }
@@ -769,14 +773,65 @@ fn site_class(g: &GenJson, _exp: i64) -> &'static str {
         // an integer (number or numeric string) outside the band of its unit, or negative with remainder
         (Value::String(_), Some((v, d, rm))) => int_class(v, d, rm),
         // JSON integers: STORE applies the unit heuristic, WHERE compares the raw number
-        (Value::Number(n), Some((v, d, rm))) if n.is_i64() || n.is_u64() => {
-            let c = int_class(v, d, rm);
-            if c != "-" { c } else if d != 1 { "where-number-not-unit-normalised" } else { "-" }
-        }
+        (Value::Number(n), Some((v, d, rm))) if n.is_i64() || n.is_u64() => int_class(v, d, rm),
         // JSON floats: STORE floors, the row condition drops the comparison, the rewrite keeps the float
         (Value::Number(_), None) => "where-float-literal",
         _ => "-",
     }
+}
+
+/// SINCE literal through the real planner: `QueryPlan::build` (→ `build_all` → `add_time_filter`)
+/// and `ConditionEvaluatorBuilder::build_from_plan` (→ `add_special_fields`).
+fn stream_since(a: &snel_harness::out::Args) {
+    use snel_db::engine::core::QueryPlan;
+    let mut s = Stream::create(&a.out, "since");
+    let rt = tokio::runtime::Builder::new_current_thread().build().unwrap();
+    let dir = a.out.join("schema-since");
+    let _ = std::fs::remove_dir_all(&dir);
+    std::fs::create_dir_all(&dir).unwrap();
+    let mut reg = SchemaRegistry::new_with_path(dir.join("schemas.bin")).unwrap();
+    reg.define("ev", MiniSchema { fields: HashMap::from([("f".to_string(), FieldType::Timestamp), ("k".to_string(), FieldType::I64)]) }).unwrap();
+    let reg = Arc::new(tokio::sync::RwLock::new(reg));
+    for i in 0..a.cases {
+        if a.only.is_some_and(|o| o != i) { continue; }
+        let mut r = Rng::for_case(a.seed, "since", i);
+        let (t, tl) = gen_instant(&mut r);
+        s.tally(tl);
+        let sp = gen_spelling(&mut r, t, &mut s);
+        let using = r.chance(1, 2);
+        let tf = if using { "f" } else { "timestamp" };
+        s.tally(&format!("kind:{}", sp.kind));
+        s.tally(if using { "using:f" } else { "using:default-timestamp" });
+        let cmd = query_cmd(None, Some(sp.text.clone()), if using { Some("f".to_string()) } else { None });
+        let plan = rt.block_on(QueryPlan::build(&cmd, Arc::clone(&reg)));
+        // filter side: the time filter carries the literal unparsed (the pruner parses it)
+        let mut filt = "missing".to_string();
+        for fg in &plan.filter_groups {
+            if let FilterGroup::Filter { column, operation: Some(CompareOp::Gte), value: Some(v), .. } = fg {
+                if column == tf { filt = sv_token(v); }
+            }
+        }
+        // row side
+        let conds = ConditionEvaluatorBuilder::build_from_plan(&plan).into_conditions();
+        let mut row = "none".to_string();
+        let mut extra = 0;
+        for c in &conds {
+            if let Some(n) = c.as_any().downcast_ref::<NumericCondition>() {
+                if n.field() == tf && format!("{:?}", n.op()) == "Gte" { row = format!("some {}", n.value()); } else { extra += 1; }
+            }
+        }
+        if extra > 0 { row = format!("{row}+{extra}-unexpected-numeric"); }
+        s.tally(if row == "none" { "result:ignored" } else { "result:condition" });
+        s.case(&format!("since {}", hexs(&sp.text)), &format!("filter={filt} row={row}"), row != "none");
+        if let Some(exp) = sp.expect {
+            if row == format!("some {exp}") { s.oracle_ok(); } else {
+                let class = match sp.int_meta { Some((v, d, rm)) => int_class(v, d, rm), None => "-" };
+                s.tally(&format!("oracle-fail:{class}"));
+                s.oracle_fail(i, class, &format!("SINCE {:?} ({}) of instant {exp}: row condition {row}", sp.text, sp.kind));
+            }
+        }
+    }
+    s.finish();
 }
 
 // ---- temporal pruner: literal → zones
@@ -798,7 +853,7 @@ fn stream_zone(a: &snel_harness::out::Args) {
         let sv = ScalarValue::from(g.v.clone());
         let (opname, op) = r.pick(&OPS).clone();
         // one zone holding 1–4 instants near the literal's instant (or negative / far away)
-        let centre = match r.below(6) { 0 => 0, 1 => -r.range(1, 100_000), 2 => r.range(0, 4_000_000_000), _ => t };
+        let centre = match r.below(8) { 0 => 0, 1 => -r.range(1, 100_000), 2 => r.range(0, 4_000_000_000), 3 | 4 => t.abs() % 4_000_000_000, _ => t };
         let n = 1 + r.below(4);
         let mut zone: Vec<i64> = (0..n).map(|_| centre.saturating_add(match r.below(4) { 0 => 0, 1 => r.range(-3, 3), 2 => r.range(-4000, 4000), _ => r.range(-90_000, 90_000) })).collect();
         if r.chance(1, 10) { zone = vec![t]; }
@@ -833,7 +888,9 @@ fn stream_zone(a: &snel_harness::out::Args) {
             if let (Some(lit), true) = (should_hold, opname != "neq") {
                 let matches = zone.iter().any(|z| match opname { "eq" => *z == lit, "gt" => *z > lit, "gte" => *z >= lit, "lt" => *z < lit, "lte" => *z <= lit, _ => false });
                 if matches && imp == "pruned" {
-                    let class = if lit < 0 { "pruner-negative-literal" } else if !registered { "pruner-negative-zone" } else { "-" };
+                    // hour-bucket ids are `start & u32::MAX`: aliasing begins at the first hour start ≥ 2^32
+                    let class = if lit < 0 { "pruner-negative-literal" } else if !registered { "pruner-negative-zone" }
+                        else if lit.max(mx) >= 4_294_969_200 { "calendar-u32-truncation" } else { "-" };
                     s.tally(&format!("oracle-fail:{class}"));
                     s.oracle_fail(i, class, &format!("zone {zone:?} holds a row matching `{column} {opname} {}` (instant {lit}) but the temporal pruner dropped it", g.v));
                 } else { s.oracle_ok(); }
@@ -864,6 +921,7 @@ fn main() {
         "bucket" => stream_bucket(&a),
         "fmt" => stream_fmt(&a),
         "sites" => stream_sites(&a),
+        "since" => stream_since(&a),
         "zone" => stream_zone(&a),
         other => {
             eprintln!("unknown stream {other}");
